@@ -11,8 +11,10 @@ import (
 	"go/printer"
 	"go/token"
 	"go/types"
+	"io"
 	"io/ioutil"
 	"os"
+	"os/exec"
 	"path/filepath"
 	"sort"
 	"strings"
@@ -121,8 +123,38 @@ func mapRangeCase(r *vlib.Rec) {
 	typed := true
 	old, _ := os.Getwd()
 	os.Chdir(dir) // the source importer resolves module imports relative to the cwd
-	conf := types.Config{Importer: importer.ForCompiler(fset, "source", nil), Error: func(error) {}}
-	_, terr := conf.Check("main", fset, files, info)
+	// "gc" reads export data of the already compiled dependencies (go list
+	// -export, offline, fast); "source" type-checks them from source (slow)
+	// and is the fallback.
+	var terr error
+	exports := map[string]string{}
+	if out, err := exec.Command("go", "list", "-export", "-deps", "-f", "{{.ImportPath}}={{.Export}}", ".").Output(); err == nil {
+		for _, line := range strings.Split(string(out), "\n") {
+			if kv := strings.SplitN(line, "=", 2); len(kv) == 2 && kv[1] != "" {
+				exports[kv[0]] = kv[1]
+			}
+		}
+	}
+	lookup := func(path string) (io.ReadCloser, error) {
+		if f, ok := exports[path]; ok {
+			return os.Open(f)
+		}
+		return nil, fmt.Errorf("no export data for %s", path)
+	}
+	for _, comp := range []string{"gc", "source"} {
+		info.Types = map[ast.Expr]types.TypeAndValue{}
+		var imp types.Importer
+		if comp == "gc" {
+			imp = importer.ForCompiler(fset, "gc", lookup)
+		} else {
+			imp = importer.ForCompiler(fset, "source", nil)
+		}
+		conf := types.Config{Importer: imp, Error: func(error) {}}
+		if _, terr = conf.Check("main", fset, files, info); terr == nil {
+			r.Outcome("typechecked-with-importer-" + comp)
+			break
+		}
+	}
 	os.Chdir(old)
 	if terr != nil {
 		typed = false
